@@ -42,3 +42,4 @@ def watch_device(dev, idx, log):
     async def cb(value, idx=idx):
         log.append(["connected", idx, bool(value)])
     dev.subscribe("connected", cb)
+    log.append(["new-device", idx])
